@@ -915,6 +915,19 @@ fn parse_zone(
     })
 }
 
+/// Removes the text matching a literal part of the format string (escaped apostrophes or a quoted part)
+pub(crate) fn remove_literal_part(part: &str, string: &mut String) -> Result<(), AstrolabeError> {
+    let chars = part.chars().count();
+    let length = if part.starts_with('\u{0000}') {
+        chars
+    } else {
+        // Opening apostrophe and, if present, the closing one
+        let closed = chars > 1 && part.ends_with('\'');
+        chars - 1 - usize::from(closed)
+    };
+    remove_part(length, string)
+}
+
 fn remove_part(length: usize, string: &mut String) -> Result<(), AstrolabeError> {
     if string.chars().count() < length {
         Err(create_invalid_format(
